@@ -3,8 +3,8 @@ CONSTANTS
   MaxListeners = 3
   NB = 4
   MaxOps = 3
-  EmitEvery = 1
-  LieMode = FALSE
+  EmitEvery = 4
+  LieMode = TRUE
   SyncListeners = 0
 CONSTRAINT Bound
 VIEW View
